@@ -180,6 +180,45 @@ reg("C04", sim(
     f"all choice vectors with ≤ 2 (3 thorough) non-default entries over alphabet {FATES}; distinct = distinct trace hashes",
     "DESIGN.md §4 C04"))
 
+API_RULE = ("every operation history up to the stated depth over the stated alphabet (one OP choice point per step, all "
+            "alternatives at every step = full enumeration, no deviation bound); each history is one execution against a real "
+            "participant and its worker; every return value is compared with a reference contract model; distinct = distinct "
+            "observation traces")
+
+reg("C28", sim(
+    "model_checking",
+    "All histories of depth 4 (5 thorough) over {register k1/k2, lookup k1/k2, write k1, dispose k1/k2, unregister k1/k2, enable} on a "
+    "keyed writer created enabled and not enabled, and depth 5 (6) over {register, unregister, dispose, write, lookup} on a keyless "
+    "writer, through the public async API. Contract model: NotEnabled before enable; register idempotent with a stable, key-specific "
+    "handle; lookup = Some exactly for registered keys (write registers implicitly, unregister un-registers); dispose/unregister of an "
+    "unknown key = BadParameter; keyless instance operations = IllegalOperation.",
+    API_RULE, "DESIGN.md §4 C28", floor=(1000, 100)))
+
+reg("C35", sim(
+    "model_checking",
+    "For each entity kind (publisher, subscriber, topic, writer, reader) one long-lived entity is created, the id counter is advanced by "
+    "pre in {0,126,253..256,300} (and 65534 for the 16-bit counters) create+delete pairs, then all histories of depth 3 (1 after the "
+    "long pre-histories) over {create, delete oldest, delete newest} are executed in a checked build (arithmetic overflow panics). "
+    "Every new handle must differ from the handles of all live entities; creation may return an error but must not panic or kill the worker.",
+    API_RULE, "DESIGN.md §4 C35", floor=(200, 2), timeout=(400, 7200)))
+
+reg("C36", sim(
+    "model_checking",
+    "All histories of depth 5 (6 thorough) over {create writer/reader, delete writer/reader/publisher/subscriber/topic/participant, "
+    "participant.delete_contained_entities, use deleted writer/reader} against a reference entity-tree model with DDS return codes "
+    "(PreconditionNotMet while children exist, AlreadyDeleted afterwards, Ok otherwise); plus publisher/subscriber."
+    "delete_contained_entities followed by deletion of the parent.",
+    API_RULE, "DESIGN.md §4 C36", floor=(1000, 100)))
+
+reg("C37", sim(
+    "model_checking",
+    "All combinations of history depth {KEEP_ALL,1,2,3} x max_samples {unlimited,1,2,3} x max_samples_per_instance {unlimited,1,2,3} at "
+    "creation of a reader and of a writer (InconsistentPolicy iff the DDS consistency rules are broken), followed by every set_qos to "
+    "a second (depth, max_samples_per_instance) pair with/without an additional immutable-policy change on the enabled entity "
+    "(InconsistentPolicy / ImmutablePolicy / Ok) with get_qos before and after (atomicity); plus a changeable-policy update that must "
+    "become visible in the remote reader's matched-publication data.",
+    API_RULE, "DESIGN.md §4 C37", floor=(1000, 100)))
+
 # ---------------------------------------------------------------------------------------------------------
 # E2 histcheck
 # ---------------------------------------------------------------------------------------------------------
